@@ -12,8 +12,10 @@ EXPLANATION = ('(1) every constructor / method parameter that accepts float-or-q
                '(.units/.unit_value/_defined_units) are never read by the solver, so results computed from explicit '
                'quantities go through identical operations whatever the settings.')
 EXTRA = ['scan_preferred_loads']
-NOT_DECIDED = ['Calculator.fire / barrel_elevation_for_target / danger_space bare arguments: they coerce with '
-               'PreferredUnits.distance(x) as their first statement (scan obligation) but have no bare-vs-quantity harness']
+NOT_DECIDED = ['barrel_elevation_for_target / danger_space bare arguments: they coerce with PreferredUnits.distance(x) as '
+               'their first statement (scan obligation) but have no bare-vs-quantity harness; Calculator.fire has the at_calls '
+               'clause for the default unit only. Constructors and Atmo.icao: bare_vs_quantity, quantity_under_two_settings and '
+               'bare_under_two_settings (the same bare number under two successive settings in one process) for every parameter']
 
 FORMATTERS = {          # functions whose job is to present values in the preferred units
     ('py_ballisticcalc/trajectory_data/_trajectory_data.py', 'TrajectoryData.formatted'),
